@@ -97,7 +97,7 @@ def classify(case, pred, db, exp, got, diff):
 
 def coverage(ctx, merged):
   cov = c01.coverage(ctx, merged)
-  cov['bounds'] = dict(db_rows_per_table=2, values=[1, 2], extra='3 tie databases, 4 null-bearing databases where null hygiene allows')
+  cov['bounds'] = dict(db_rows_per_table=3 if ctx.thorough else 2, values=[1, 2], extra='3 tie databases, 4 null-bearing databases where null hygiene allows')
   return cov
 
 
